@@ -278,7 +278,7 @@ reg(Spec(
               "factor-window:point-like"],
     assumptions=[DYADIC, MODEL, "expression types are sampled (catalogue + "
                  "random set per seed), not enumerated; operand orders 0..3"],
-    evaluations="apply",
+    evaluations=None,
     post=expr_post,
     technique="runtime monitor over generated programs: each expression is "
               "compiled against the real headers and its results compared "
@@ -326,7 +326,7 @@ reg(Spec(
     assumptions=[DYADIC, MODEL, "expression pairs (E_i, E_i+1) of each "
                  "generated translation unit, spline order pairs (0,1) (2,0) "
                  "(1,3) (3,2)"],
-    evaluations="bilinear",
+    evaluations=None,
     post=expr_post,
     technique="runtime monitor over generated programs: exact-integral "
               "oracle plus metamorphic relations through the library"))
@@ -353,7 +353,7 @@ reg(Spec(
               "forms:linear-identity"] +
              ["linear:outsize:%d" % i for i in range(1, 9)],
     assumptions=[DYADIC, MODEL],
-    evaluations=["linear", "bilinear:metamorphic"],
+    evaluations=None,
     post=expr_post,
     technique="runtime monitor over generated programs: exact-integral "
               "oracle plus the bilinear/linear consistency relation"))
@@ -536,7 +536,9 @@ reg(Spec(
                  "not judged", "infinities are ordinary ordered values and "
                  "are accepted as grid points", "a particular error code is "
                  "not demanded"],
-    evaluations=None, exhaustive=False,
+    evaluations=lambda cnt: sum(v for k, v in cnt.items()
+                                if k.endswith(":valid") or k.endswith(":invalid")),
+    exhaustive=False,
     technique="runtime monitor: accept-iff-valid oracle over exhaustive "
               "small sequences and generated argument tuples"))
 
@@ -1063,7 +1065,7 @@ reg(Spec(
     assumptions=[DYADIC, "x86-64: SSE2 for float/double, x87 for long double, "
                  "no FMA contraction; bit-equality across optimisation levels "
                  "is not demanded, only the bound"],
-    evaluations="cases-run",
+    evaluations=None,
     post=c16_post,
     technique="runtime monitor: exact-rational oracle with the property's "
               "2^20 eps bound over edge-of-domain workloads in 18 build "
@@ -1375,7 +1377,7 @@ reg(Spec(
                  ("A_POINT", "false"), ("B_POINT", "false"))],
     assumptions=["NaN coefficients and checkOverlap across different grids "
                  "are not judged"],
-    evaluations="step:predicates",
+    evaluations=None,
     technique="runtime monitor: predicate results compared with the shadow "
               "model and with window arithmetic over generated histories"))
 
